@@ -174,12 +174,42 @@ func (ev *Eval) ident(name string) Value {
 				}
 			}
 		}
-		// locals (current value)
+		// locals (current value). With several variables of the same name the one in scope at the
+		// loop header wins (its allocation dominates the header); `rangeindex` is this loop's own.
 		bestID := -1
-		for a, id := range ev.fr.cellOf {
-			if a.Comment == name && id > bestID {
-				if _, live := ev.st.cells[id]; live {
+		if ev.loop != nil && name == "rangeindex" {
+			if a := rangeIndexAlloc(ev.loop.info.header); a != nil {
+				if id, ok := ev.fr.cellOf[a]; ok {
+					if _, live := ev.st.cells[id]; live {
+						bestID = id
+					}
+				}
+			}
+		}
+		if bestID < 0 && ev.loop != nil && ev.loop.frame == ev.fr {
+			h := ev.loop.info.header
+			for a, id := range ev.fr.cellOf {
+				if a.Comment != name || id <= bestID {
+					continue
+				}
+				if _, live := ev.st.cells[id]; !live {
+					continue
+				}
+				if ev.fr.ctx != nil && ev.fr.ctx.ghost[name] == id {
 					bestID = id
+					continue
+				}
+				if a.Block() != nil && (a.Block() == h || a.Block().Dominates(h)) && !ev.loop.info.blocks[a.Block()] {
+					bestID = id
+				}
+			}
+		}
+		if bestID < 0 {
+			for a, id := range ev.fr.cellOf {
+				if a.Comment == name && id > bestID {
+					if _, live := ev.st.cells[id]; live {
+						bestID = id
+					}
 				}
 			}
 		}
@@ -402,7 +432,7 @@ func (ev *Eval) index(n *ast.IndexExpr) Value {
 	switch w := base.(type) {
 	case *SliceV:
 		i := ev.term(n.Index)
-		return ev.x.loadObj(ev.st, "A", w.Elem, w.Ptr, Add(w.Off, i), "", w.Elem)
+		return ev.x.loadObj(ev.st, "A", w.Elem, w.Ptr, Sidx(w.Off, i), "", w.Elem)
 	case *Prim:
 		if strings.HasPrefix(w.T.Sort, "(Array Int ") {
 			return &Prim{T: Select(w.T, ev.term(n.Index))}
@@ -655,6 +685,13 @@ func (ev *Eval) callExpr(n *ast.CallExpr) Value {
 			return &Prim{T: ft}
 		}
 		return &Prim{T: app(SF64, "f_of_int", t)}
+	case "nan":
+		return &Prim{T: F64Bits(0x7FF8000000000001)}
+	case "inf":
+		if s, _ := isIntLit(ev.term(n.Args[0])); s < 0 {
+			return &Prim{T: F64Bits(0xFFF0000000000000)}
+		}
+		return &Prim{T: F64Bits(0x7FF0000000000000)}
 	case "isnan":
 		return &Prim{T: app(SBool, "f_isnan", ev.fterm(n.Args[0]))}
 	case "isinf":
@@ -676,6 +713,12 @@ func (ev *Eval) callExpr(n *ast.CallExpr) Value {
 			case *PtrV:
 				if w.Loc == nil {
 					ev.fail("fresh(nil)")
+				}
+				if w.Loc.Kind == LCell && len(w.Loc.Path) == 0 {
+					if c := ev.st.cells[w.Loc.CellID]; c != nil && !c.Mat {
+						// an allocation of this very execution that has not escaped yet
+						continue
+					}
 				}
 				cs = append(cs, Ge(x.refOf(ev.st, w.Loc), fc.alloc0))
 			case *IfaceV:
